@@ -45,6 +45,7 @@ def gen(rng, depth, scope):
     # a qualified attribute on the element itself, its prefix from the declarations in scope here
     named = [k for k in sc if k]
     at = f' {rng.choice(named)}:a="1"' if named and rng.random() < 0.4 else ''
+    if rng.random() < 0.15: at += rng.choice([' xml:lang="en"', ' xml:space="preserve"'])      # the XML namespace: bound by definition, declared by nobody
     return f'<{tag}{xmlns}{at}>{kids}</{tag}>'
 
 
@@ -73,12 +74,14 @@ def check(data, elem, scope, bad, path='/', attrs=False):
         uri = sc2.get(p) if ':' in k else sc2.get('', '')
         return f'{{{uri}}}{local}' if uri else local
     # attribute keys: a prefixed key resolves with the declarations in scope at the element (its own included), an unprefixed one is in no namespace
-    akeys = sorted((f'{{{sc.get(k[1:].partition(":")[0])}}}' + k.partition(':')[2]) if ':' in k else k[1:] for k in data if k.startswith('@') and not k.startswith('@xmlns'))
+    def akey(k):
+        if k[1:2] == '{': return k[1:]          # a name left in expanded form (no prefix for its namespace is in scope: the XML namespace, unless the document declares xmlns:xml)
+        return (f'{{{sc.get(k[1:].partition(":")[0])}}}' + k.partition(':')[2]) if ':' in k else k[1:]
+    akeys = sorted(akey(k) for k in data if k.startswith('@') and not k.startswith('@xmlns'))
     if attrs and akeys != sorted(elem.attrib):
         # listed finding: an attribute in the namespace that is also the default one is reported under an unprefixed key (which, read by the rules of XML, is in no namespace)
         dflt = sc.get('')
-        as_lib = sorted(f'{{{dflt}}}{k[1:]}' if dflt and ':' not in k and ('{' + dflt + '}' + k[1:]) in elem.attrib else
-                        ((f'{{{sc.get(k[1:].partition(":")[0])}}}' + k.partition(':')[2]) if ':' in k else k[1:]) for k in data if k.startswith('@') and not k.startswith('@xmlns'))
+        as_lib = sorted(f'{{{dflt}}}{k[1:]}' if dflt and ':' not in k and ('{' + dflt + '}' + k[1:]) in elem.attrib else akey(k) for k in data if k.startswith('@') and not k.startswith('@xmlns'))
         bad.append((KNOWN_B if as_lib == sorted(elem.attrib) else path + '@', akeys, sorted(elem.attrib))); return
     want = [c.tag for c in children]
     items = []
